@@ -630,7 +630,9 @@ def toml_dumps(cfg: Dict[str, Any]) -> str:
 
 
 EXTS = [".graphql", ".graphqls", ".gql"]
-DIRS = ["", "types", "types/inputs", "z_last", "a_first/nested", "Upper", ".hidden_dir", "with space", "x/y/z/deep"]
+DIRS = ["", "types", "types/inputs", "z_last", "a_first/nested", "Upper", ".hidden_dir", "with space", "x/y/z/deep",
+        # ordinary nouns that tools like to treat as "not source": none of them means anything to a schema tree
+        "build", "dist", "node_modules/pkg", "vendor", "target", "out", "tmp", "lib/site-packages", "__pycache__", "test", "generated"]
 FNAMES = ["schema", "b", "a", "zz", "Types", "10", "2", "common", "_x", ".dotfile", "two.parts"]
 
 
